@@ -297,6 +297,31 @@ def derived_text(draw):
     return D.Renderer(m, D.Choices(layout), plain=not layout).render(D.terminals(tree))[0]
 
 
+BREAK_KEYWORDS = ['import y', 'return 1', 'pass', 'del x', 'def g(): pass', 'class B: pass', 'assert x', 'raise E', 'global z',
+                  'with a: pass', 'for i in j: pass', 'while k: pass', 'try: pass', 'if c: pass', 'x = 2', 'yield', 'else:', 'finally:']
+
+
+@st.composite
+def bracket_then_dedent(draw):
+    """An indentation ladder, then a line with an unclosed bracket (optionally broken inside, optionally followed by a
+    statement prefix such as `; from m` or `; b`), then a line that starts with one of the tokenizer's break keywords at an
+    indentation drawn anywhere between 0 and deeper than the ladder - including widths that match no open level."""
+    unit = draw(st.sampled_from(['    ', '  ', '\t', '        ']))
+    depth = draw(st.integers(0, 3))
+    out = []
+    for d in range(depth):
+        out.append(unit * d + draw(st.sampled_from(['def f():', 'class A:', 'if x:', 'for a in b:', 'try:', 'while x:', 'with a:'])) + '\n')
+    opener = draw(st.sampled_from(['foo(', 'x = [', 'y = {', 'f"{', "f'''{", 'bar(a, (', 'z = (1 +']))
+    inner = draw(st.sampled_from(['a', 'a b', 'a, ', '', '1 +', 'a b c', 'lambda:', '*']))
+    prefix = draw(st.sampled_from(['', '', '; from m', '; b', '; b;', ' from m', '; import', '; x =', ';', '; from . ', '; @dec']))
+    out.append(unit * depth + opener + inner + prefix + draw(st.sampled_from(['\n', '\n', ' \\\n', '\r\n'])))
+    width = draw(st.integers(0, len(unit) * depth + 4))
+    out.append(' ' * width + draw(st.sampled_from(BREAK_KEYWORDS)) + '\n')
+    for _ in range(draw(st.integers(0, 2))):
+        out.append(' ' * draw(st.integers(0, len(unit) * depth + 2)) + draw(st.sampled_from(BREAK_KEYWORDS + [')', ']', '}', 'x', "'''"])) + '\n')
+    return ''.join(out)
+
+
 def version():
     return st.sampled_from(VERSIONS)
 
@@ -313,6 +338,7 @@ def adversarial_text(max_frags=25, corpus_kinds=('repo',), weights=None, nest_de
         nested(nest_depth).map(lambda t: t[0]),
         st.builds(lambda a, b, c: a + b + c, soup(6, weights), nested(12).map(lambda t: t[0]), soup(6, weights)),
         derived_text(),
+        bracket_then_dedent(),
         mutated(derived_text(), max_edits=2, weights=weights),
         snippet(),
         mutated(snippet(), max_edits=2, weights=weights),
